@@ -53,6 +53,14 @@ func (fa *FA) condFacts(c Cond) []Fact {
 		return []Fact{le(y, x, why)}
 	case token.EQL:
 		return []Fact{le(x, y, why), le(y, x, why)}
+	case token.NEQ:
+		// x != c with x known >= c (e.g. len(s) != 0) gives x >= c+1
+		if c, ok := y.IsConst(); ok && c == 0 && fa.nonNegLin(x) {
+			return []Fact{le(linConst(1), x, why+" (non-negative)")}
+		}
+		if c, ok := x.IsConst(); ok && c == 0 && fa.nonNegLin(y) {
+			return []Fact{le(linConst(1), y, why+" (non-negative)")}
+		}
 	}
 	return nil
 }
@@ -239,7 +247,23 @@ func (p *Prog) retSummary(g *ssa.Function) []retFact {
 			continue
 		}
 		if errIdx >= 0 && !isNilConst(r.Results[errIdx]) {
-			continue
+			// a forwarded error (e.g. `return g(...)`) may be nil: the guarantee must hold there too,
+			// unless a dominating test shows it is non-nil
+			if knownNonNilAt(r.Results[errIdx], r) {
+				continue
+			}
+			if _, isConst := r.Results[errIdx].(*ssa.Const); isConst {
+				continue
+			}
+			if mi, isMI := r.Results[errIdx].(*ssa.MakeInterface); isMI {
+				_ = mi
+				continue // a freshly built error value
+			}
+			if u, isLoad := r.Results[errIdx].(*ssa.UnOp); isLoad {
+				if _, isG := u.X.(*ssa.Global); isG {
+					continue // a package-level error value
+				}
+			}
 		}
 		succ = append(succ, r)
 	}
